@@ -5,7 +5,16 @@ DRIVER = "recorder_driver.py"
 SHARD = 60
 
 
+def f07c_affected(obs):
+    """Did a cassette hand back something else than what was saved (observed round trip of that very recording)?  That is
+    the serializer's shared-reference defect, known finding F07c (listed for C01): whatever is replayed from such a
+    recording is outside the tree-shaped value domain of the model."""
+    return any(c.get("fetch_ok") is False for ob in obs.get("runs", []) for c in ob.get("cass", []))
+
+
 def to_gallina(case, obs):
+    if f07c_affected(obs):
+        return None
     if "driver_exception" in obs:
         return "Case [] [] [mk_obs OInt [] [] [] [] fresh_rst]"     # forces a mismatch
     return rd.g_case(case, obs)
@@ -17,6 +26,8 @@ def explain(case, obs):
 
 def features(case):
     fs = set()
+    if case.get("unshare"):
+        fs.add("values-passed-as-copies")
     for r in case["runs"]:
         if r["kind"] == "record":
             fs.add("run:record")
